@@ -19,6 +19,29 @@ REPLAYS = os.path.join(EVID, "replays")
 REPO = "/repo"
 NCPU = 16
 
+# Evaluating a seeded change without touching /repo (tools/try_mutant.sh): VERIF_REPO names a scratch worktree of the
+# project; the harness is then built in a shadow directory against that tree, and work files / evidence / replays of
+# the run go under .work/alt-<name> so that neither /repo nor the committed evidence is disturbed.  Registered checks
+# never set it: they always rebuild from /repo.
+ALT_REPO = os.environ.get("VERIF_REPO")
+if ALT_REPO and os.path.abspath(ALT_REPO) != REPO:
+    REPO = os.path.abspath(ALT_REPO)
+    WORK = os.path.join(VERIF, ".work", "alt-" + os.path.basename(REPO))
+    EVID = os.path.join(WORK, "evidence")
+    REPLAYS = os.path.join(EVID, "replays")
+    _shadow = os.path.join(WORK, "harness")
+    os.makedirs(os.path.join(_shadow, ".cargo"), exist_ok=True)
+    with open(os.path.join(HARNESS, "Cargo.toml")) as _f:
+        _toml = _f.read().replace('"/repo/', '"' + REPO + '/')
+    with open(os.path.join(_shadow, "Cargo.toml"), "w") as _f:
+        _f.write(_toml)
+    shutil.copyfile(os.path.join(HARNESS, ".cargo", "config.toml"), os.path.join(_shadow, ".cargo", "config.toml"))
+    if not os.path.islink(os.path.join(_shadow, "src")):
+        os.symlink(os.path.join(HARNESS, "src"), os.path.join(_shadow, "src"))
+    HARNESS = _shadow
+else:
+    ALT_REPO = None
+
 
 class ToolError(Exception):
     """Something in the machinery (not in the code under test) failed: exit 2, never VIOLATION."""
